@@ -493,7 +493,8 @@ def recheck(r):
     rng = random.Random(0)
     for nsig in (8, 150):
         res = oracle(case, out, rng, nsig=nsig)
-        if res and not res[2]:            # (violations carrying the tag of a recorded finding are that finding)
+        known = {e.get('id') for e in common.load_known_findings('C07') if e.get('status') == 'known'}
+        if res and not (set(res[2] or []) & known):            # (a recorded, unrepaired finding is that finding)
             return 'compile: ' + res[0]
     return None
 
